@@ -11,6 +11,11 @@ NOTE = ("claims are over the reals within the bounds stated in the evidence file
         "classes and term transformations of /verif/vf (validated each run against the real code on floats), stub contracts listed in the evidence")
 
 CHECKS = {
+    "C11": ("5 C11", "relational: each process model run twice in one exploration with (kA, k m0) and (kA, dt/k), N = 3 steps (thorough 2..4), "
+                     "callees as uninterpreted functions with Ackermann congruence, per-step state named and equalities chained as lemmas; "
+                     "step-0 flux question must not mention A, m0, dt (free-variable check on the recorded argument terms)"),
+    "C18": ("5 C18", "process models with the real validator and guards forking, flux function arbitrary, N = 2 (thorough 2,3): on every "
+                     "returning leaf no reported state can be inadmissible (feed mass, temperature, fractions); replay with coarse real runs"),
     "C01": ("5 C01", "4 process models x 3 permeate modes x {mass, mole} initial basis x programme kinds x curve-set shapes, N = 1,3 steps "
                      "(thorough 1..5) with the flux solver / permeance / heats / best-fit search as arbitrary functions: series lengths, "
                      "time grid, initial state, reported fluxes, total and first-component balance per step"),
